@@ -468,7 +468,7 @@ impl Prop for C11 {
                 v.push(json!({"kind": "exh", "ty": ty, "first": a, "maxlen": maxlen}));
             }
             for n in 2..=7usize {
-                for k in 0..tier.pick(40, 400) {
+                for k in 0..tier.pick(40, 2000) {
                     v.push(json!({"kind": "faulty", "ty": ty, "subs": n, "seed": mix(seed ^ 0xFA17 ^ (k as u64) << 4 ^ n as u64)}));
                 }
             }
@@ -476,7 +476,7 @@ impl Prop for C11 {
                 v.push(json!({"kind": "resub", "ty": ty, "old": old}));
             }
             for n in 1..=5usize {
-                for k in 0..tier.pick(120, 800) {
+                for k in 0..tier.pick(120, 3000) {
                     v.push(json!({"kind": "random", "ty": ty, "subs": n, "len": 30, "seed": mix(seed ^ (k as u64) << 3 ^ n as u64)}));
                 }
             }
